@@ -179,7 +179,7 @@ def run_case(case, ctx):
             check_val(ctx, "value-mixed-dtype", ctx.call(_p.heat, farr(Gq), F32, sigma=sigma), Gq, F, sigma, "float64 array vs float32 array")
             # integer-typed arrays: large values (squares beyond the integer range) and unsigned dtypes
             # (differences wrap around) must give the value of the equal float diagrams
-            for dt, kk in ((np.int64, 4 * 10 ** 9), (np.int32, 50000), (np.int16, 200), (np.uint8, 60), (np.uint16, 1)):
+            for dt, kk in ((np.int64, 4 * 10 ** 9), (np.int32, 50000), (np.int16, 200), (np.uint8, 60), (np.uint16, 1), (np.uint8, 85), (np.int16, 10900), (np.int8, 42)):
                 Fi = (np.array(F, dtype=np.int64).reshape(-1, 2) * kk).astype(dt)
                 Gi = (np.array(G, dtype=np.int64).reshape(-1, 2) * kk).astype(dt)
                 Ff, Gf = Fi.astype(float).tolist(), Gi.astype(float).tolist()
